@@ -68,8 +68,9 @@ def cUnpinSound (i : Input) (o : Output) : Bool :=
 
 /-- a truthfully answered PinLsCid reports the daemon's state (as far as the type filter shows it) -/
 def cLsTruthful (i : Input) (o : Output) : Bool :=
-  !(i.op == .ls && clsAt false (i.beh 0) == .honest) ||
-    o.res == .st (if i.table i.cid == wanted i.depth then i.table i.cid else .u)
+  (!(i.op == .ls && clsFirst (i.beh 0) == .honest) ||
+    o.res == .st (if i.table i.cid == wanted i.depth then i.table i.cid else .u)) &&
+  (!(i.op == .ls && clsFirst (i.beh 0) == .honestAny) || o.res == .st (i.table i.cid))
 
 /-- daemon and transport failures are reported as errors -/
 def cErrorsReported (i : Input) (o : Output) : Bool :=
@@ -77,7 +78,8 @@ def cErrorsReported (i : Input) (o : Output) : Bool :=
 
 /-- already pinned as asked (and the daemon says so): nothing is requested -/
 def cNoRequestWhenAlready (i : Input) (o : Output) : Bool :=
-  !(i.op == .pin && i.table i.cid == wanted i.depth && clsAt false (i.beh 0) == .honest) ||
+  !(i.op == .pin && i.table i.cid == wanted i.depth &&
+      (clsFirst (i.beh 0) == .honest || clsFirst (i.beh 0) == .honestAny)) ||
     (o.res == .ok && o.trace.all (isLsOf i.cid) && o.trace.length ≤ 1 && o.swarm.isEmpty &&
       o.final i.cid == i.table i.cid)
 
